@@ -26,4 +26,6 @@ def build():
         mod.register(reg, stubs, world)
         if hasattr(mod, 'register_chain'):
             mod.register_chain(reg, stubs, world)
+        if hasattr(mod, 'register_chain2'):
+            mod.register_chain2(reg, stubs, world)
     return world, reg, stubs
